@@ -70,6 +70,12 @@ func (i IPAddr) IsLoopback() bool {
 	// 		The reason for IpV4 is that provided the truncated ip address is a
 	// 		loopback address, its prefix cannot be less than 8 because
 	// 		otherwise its more significant byte cannot be 127
+	//
+	// netip treats an IPv4-mapped IPv6 address as the IPv4 address it embeds; in Cedar it is a
+	// plain IPv6 address, and the only IPv6 loopback address is ::1.
+	if i.Addr().Is4In6() {
+		return false
+	}
 	return i.Prefix().Masked().Addr().IsLoopback()
 }
 
@@ -96,7 +102,8 @@ func (i IPAddr) IsMulticast() bool {
 	} else {
 		minPrefixLen = 8
 	}
-	return i.Addr().IsMulticast() && i.Prefix().Bits() >= minPrefixLen
+	// As in IsLoopback, an IPv4-mapped IPv6 address is not in the IPv6 multicast range ff00::/8.
+	return !i.Addr().Is4In6() && i.Addr().IsMulticast() && i.Prefix().Bits() >= minPrefixLen
 }
 
 func (i IPAddr) Contains(o IPAddr) bool {
